@@ -53,6 +53,10 @@ def build(case):
                                                                      {"t": "text", "text": "4 5 6"}]))
         elif t == "X":
             spec["sections"].append(lastext.section("X", "~Tops", [lastext.item("TOPA", "M", "12.5", "top a")]))
+        elif t in ("PD", "XD"):
+            # an item called DLM in a section that does not steer parsing (only ~Version's does)
+            spec["sections"].append(lastext.section(t[0], "~Parameter" if t == "PD" else "~Tool Settings", [
+                lastext.item("BHT", "DEGC", "35.5", "temp"), lastext.item("DLM", "", "TAB" if c % 2 else "COMMA", "display delimiter")]))
         elif t == "E":
             spec["sections"].append(lastext.section("P", "~Parameter", []))
         elif t.startswith("OL"):
@@ -221,7 +225,7 @@ def cases(draw, max_rows=10):
     if draw(st.integers(0, 7)) == 0:
         # a long run of comment / blank lines (longer than any sample of lines a sniffer may take) before the first row
         noise += [[0, draw(noise_text)] for _ in range(draw(st.integers(19, 30)))]
-    after = draw(st.sampled_from([[], [], [], ["P"], ["O"], ["X"], ["P", "O"], ["X", "P"], ["E"], ["O", "X"], ["OL"], ["PL"], ["X", "OL"]]))
+    after = draw(st.sampled_from([[], [], [], ["P"], ["O"], ["X"], ["P", "O"], ["X", "P"], ["E"], ["O", "X"], ["OL"], ["PL"], ["X", "OL"], ["PD"], ["XD"], ["XD", "O"]]))
     after = [a + str(draw(st.integers(8, 40))) if a in ("OL", "PL") else a for a in after]
     d = c if draw(st.integers(0, 99)) < (85 if len(noise) < 19 else 40) else draw(st.integers(0, 10))
     extra = {}
